@@ -104,6 +104,15 @@ CHECKS = {
             "the model, so that a switch that disturbs another buffer's text, position, undo state or dirty flag shows up when that buffer is "
             "visited again.",
             "Per-buffer text/current line from models/lined.py; deleting the last buffer and a 17th file are not generated.", "3/C20"),
+    "C03": ("fault_enumeration", "fault enumeration with an LD_PRELOAD interposer (every call position x fault kind) + enumerated guard matrix + "
+                                 "property-based multi-fault plans",
+            "Every position of the open/write/close sequence of a write (from a counting run) x {errno returns, short counts} x 8 buffer "
+            "shapes spanning zero, one and many 4 KiB batches x {w, wq, xa}; the full matrix of target identity/existence/mtime/!/command/"
+            "dirty; random plans of 2-4 faults.  Oracle: a reached error is reported, the buffer stays dirty (:q refused), a fault-free retry "
+            "succeeds and then the file holds exactly the text; short counts alone end in success with the exact text; refused targets keep "
+            "bytes and mtime.",
+            "Faults are injected at the libc boundary of the plain build; ftruncate failures and zero-length writes are outside the "
+            "statement; single faults are exhaustive for the listed shapes, longer plans sampled.", "3/C03"),
 }
 
 ALL = ["C%02d" % i for i in range(1, 21)]
